@@ -2,7 +2,7 @@
    expressions.go, functions.go and the expression cases of the type switch of explain.go [Node]
    (plus explainParameter of statements.go).
 
-   DEFINITIONS ONLY.  Hand-written transcription of /repo revision a86ab771a.  As in the Select /
+   DEFINITIONS ONLY.  Hand-written transcription of /repo revision 49bf3628f.  As in the Select /
    Ddl / Stmt models the "(children N)" number of a header line is computed by the code that computes
    it in Go (a constant, a tally, [len(..)] of a list built by a helper) and the children are emitted
    by separate code: same order of emission, same conditions, same depths, nothing shared.  The
@@ -29,7 +29,7 @@
      containsNonLiteralExpressions, containsNonLiteralInNested, containsTuples, containsEmptyArrays,
      containsEmptyArraysRecursive, containsTuplesRecursive, containsNonLiteralExpressionsRecursive 249-445;
      explainBinaryExpr 447, collectConcatOperands 481, collectLogicalOperands 505; explainUnaryExpr 526;
-     explainSubquery 590; explainAliasedExpr 600 (every case); explainAsterisk 873, explainColumnsTransformers 896,
+     explainSubquery 590; explainAliasedExpr 600 (every case, BetweenExpr and LikeExpr since 49bf3628f); explainAsterisk 873, explainColumnsTransformers 896,
      explainSingleTransformer 947, explainColumnsMatcher 976, explainColumnsMatcherTransformers 1033;
      explainWithElement 1084 (every case);
      explainFunctionCall(WithAlias) 113-218, handleSpecialFunction 229, handleQuantifiedComparison 287,
@@ -1378,6 +1378,8 @@ Definition explain_aliased_expr (d : nat) (e : expr) (alias : list N) (lit_neg_l
   | ECase operand whens els _ => explain_case_expr_with_alias alias d operand whens els
   | EExists q => explain_exists_expr_with_alias alias d q
   | EIsNull x not => explain_is_null_expr_with_alias alias d x not
+  | EBetween x lo hi not => explain_between_expr_with_alias alias d x lo hi not
+  | ELike x p not ci _ => explain_like_expr_with_alias alias d x p not ci     (* the LikeExpr's own Alias is not read *)
   | EParam name ty => explain_parameter_aliased alias d name ty
   | _ => node d e
   end.
